@@ -258,7 +258,8 @@ impl Xot {
     /// If it's an unattached tree, it's the top node of that tree
     pub fn top_element(&self, node: Node) -> Node {
         if self.value_type(node) == ValueType::Document {
-            return self.document_element(node).unwrap();
+            // a document without an element (possible in a fragment) is its own top
+            return self.document_element(node).unwrap_or(node);
         }
         let mut top = node;
         for ancestor in self.ancestors(node) {
